@@ -99,7 +99,7 @@ define_ops! {
 
 width_list!();
 
-const W_EDGE_QUICK: &[usize] = &[63, 64, 65, 127, 128, 129, 192, 256, 257];
+const W_EDGE_QUICK: &[usize] = &[63, 64, 65, 127, 128, 129, 192, 256, 257, 320, 384, 448, 512];
 const W_EDGE: &[usize] = &[60, 63, 64, 65, 120, 127, 128, 129, 191, 192, 193, 250, 255, 256, 257, 320, 384, 511, 512, 513, 1024];
 
 fn u(v: &BigUint, bits: usize) -> V {
@@ -451,6 +451,16 @@ fn c06(r: &Runner) {
         });
         let (iv, id) = values_for(r, bits, (per / (3 * (bits + 65))).max(8));
         indexed(r, bits, &iv, &id);
+        let (rv, rd) = values_for(r, bits, if SWEEP { 200 } else if r.is_thorough() { 40_000 } else { 8_000 });
+        r.universe(&format!("{rd} x related operands: logic"), bits, rv.len(), |i, l| {
+            let a = vu(&rv[i]);
+            for b in related(bits, &rv[i]) {
+                l.states(1);
+                for &op in C06_BIN {
+                    exec(l, bits, op, &[a.clone(), vu(&b)]);
+                }
+            }
+        });
     }
 }
 
